@@ -427,6 +427,58 @@ func runC03(c *Ctx) {
 			try("other-alg", base.wire, base.ext, ks, vs)
 		}
 	})
+	// RSASSA-PSS signatures whose first octet is zero (one in 256): the signature is the full modulus-length
+	// octet string; with the leading zero dropped, moved to the end, or doubled it is not a signature
+	for _, k := range c.Keys.Keys[4:7] {
+		priv := k.Priv
+		found := 0
+		for try := 0; try < 6000 && found < 2; try++ {
+			hdr := cose.Headers{Protected: cose.ProtectedHeader{int64(1): k.Alg}, Unprotected: cose.UnprotectedHeader{}}
+			m := &cose.Sign1Message{Headers: hdr, Payload: []byte(fmt.Sprintf("pss-leading-zero-%d", try))}
+			if err := m.Sign(gen.Entropy, nil, k.Signer); err != nil {
+				rec.HarnessError("C03: " + err.Error())
+				break
+			}
+			if m.Signature[0] != 0 {
+				continue
+			}
+			found++
+			rec.Event("pss-leading-zero-signatures")
+			full := append([]byte{}, m.Signature...)
+			variants := map[string][]byte{
+				"as-is":                     full,
+				"leading-zero-dropped":      full[1:],
+				"leading-zero-moved-to-end": append(append([]byte{}, full[1:]...), 0),
+				"leading-zero-doubled":      append([]byte{0}, full...),
+			}
+			for name, sig := range variants {
+				mm := &cose.Sign1Message{Headers: m.Headers, Payload: m.Payload, Signature: sig}
+				wire, merr := mm.MarshalCBOR()
+				if merr != nil {
+					continue
+				}
+				var d cose.Sign1Message
+				in := map[string]any{"family": "pss-leading-zero", "alg": k.Name, "variant": name, "wire": mon.FullHex(wire)}
+				if d.UnmarshalCBOR(wire) != nil {
+					continue
+				}
+				var verr error
+				if guard(rec, "Sign1.Verify", in, func() { verr = d.Verify(nil, k.Verifier) }) {
+					continue
+				}
+				rec.Eval(1)
+				rec.Class("pss-leading-zero/" + k.Name + "/" + name)
+				ref := RefSign1Verdict(wire, true, nil, VKey{int64(k.Alg), k.Pub})
+				if (verr == nil) != ref {
+					rec.Violate("verdict-differs", "pss-leading-zero/"+name, fmt.Sprintf("library: %v, reference verdict: %v", verr, ref), in)
+				}
+			}
+		}
+		_ = priv
+		if found == 0 {
+			rec.Event("pss-leading-zero:none-found")
+		}
+	}
 	rec.Require("mutants", 10000)
 	rec.Require("mutants:accepted", 20)
 	rec.Require("mutants:rejected", 1000)
